@@ -22,7 +22,6 @@ def add_classwrite(u, props, with_usize=True):
     if with_usize:
         for ty, mx, spec in [('u8', '0xff', 'seq![value as u8]'), ('u16', '0xffff', 'be16(value as u16)'), ('u32', '0xffff_ffff', 'be32(value as u32)')]:
             u.fn(LIB, f'ClassWrite::write_usize_as_{ty}', container=TR, ret='res', props=props,
-                 ctx_sites=[(rf'{ty}::try_from\(value\)', '.ok().ok_or(VErr)')],
                  ensures=[
                      C(f'cw.write_usize_as_{ty}.checked', f'value > {mx} ==> res.is_err() && final(self).bytes() == old(self).bytes()'),
                      C(f'cw.write_usize_as_{ty}.exact', f'res.is_ok() ==> value <= {mx} && final(self).bytes() == old(self).bytes() + {spec}'),
